@@ -3,8 +3,8 @@
 //! `/verif/known_findings.json` lists genuine defects of sudachi.rs that were recorded rather than
 //! repaired (`status: "open"`) and defects that were repaired (`status: "fixed"`, which suppress
 //! nothing).  An open entry is identified by the oracle clause that fails (`kind`), optionally the
-//! panic site (`site`, path without line number) and optionally a substring of the failure detail
-//! (`detail_contains`), so that a different violation of the same property is still reported.
+//! panic site (`site`, path without line number) and optionally substrings of the failure detail
+//! (`detail_contains`, a string or a list of strings that must all occur), so that a different violation of the same property is still reported.
 //! The file is never written at run time.
 
 use crate::common::panics::{site_of, PanicInfo};
@@ -44,7 +44,7 @@ pub struct Finding {
     pub status: String,
     pub kind: String,
     pub site: Option<String>,
-    pub detail_contains: Option<String>,
+    pub detail_contains: Vec<String>,
     pub what: String,
     pub commit: Option<String>,
 }
@@ -70,7 +70,11 @@ impl KnownFindings {
                 status: s("status").unwrap_or_else(|| "open".into()),
                 kind: s("kind").unwrap_or_default(),
                 site: s("site"),
-                detail_contains: s("detail_contains"),
+                detail_contains: match &e["detail_contains"] {
+                    Value::String(x) => vec![x.clone()],
+                    Value::Array(a) => a.iter().filter_map(|x| x.as_str().map(|y| y.to_string())).collect(),
+                    _ => vec![],
+                },
                 what: s("what").unwrap_or_default(),
                 commit: s("commit"),
             });
@@ -89,10 +93,8 @@ impl KnownFindings {
                     continue;
                 }
             }
-            if let Some(dc) = &e.detail_contains {
-                if !f.detail.contains(dc.as_str()) {
-                    continue;
-                }
+            if !e.detail_contains.iter().all(|dc| f.detail.contains(dc.as_str())) {
+                continue;
             }
             return Some(e.id.clone());
         }
